@@ -214,6 +214,8 @@ def _user(w, sc):
     def body():
         for x in range(n):
             w.submit(x)
+            if u.get('sequential'):
+                w.result(x)
         if cancel and cancel['how'] in ('exit-exc', 'exit-kbi'):
             s.wait_until_step(cancel.get('gate', 0))
             s.emit('CancelCall', how=cancel['how'], x=-1,
@@ -221,7 +223,7 @@ def _user(w, sc):
             if cancel['how'] == 'exit-exc':
                 raise ValueError(cancel.get('msg', 'boom'))
             raise KeyboardInterrupt()
-        if u.get('results', True):
+        if u.get('results', True) and not u.get('sequential'):
             for x in range(n):
                 w.result(x)
         if u.get('fresh'):
